@@ -1193,7 +1193,7 @@ def run(chk):
     counters = {"requests": 0, "types": set()}
     if os.path.isdir(KEEP):
         for fn in os.listdir(KEEP):
-            if fn.startswith("C10-"):
+            if fn.startswith("C10-%d-" % chk.seed):       # this seed's only: runs with other seeds may be going on
                 os.unlink(os.path.join(KEEP, fn))
     try:
         worlds = [World("asyncio", False, tmp), World("blocking", False, tmp), World("asyncio", True, tmp)]
@@ -1246,7 +1246,8 @@ def run(chk):
         missing = sorted(want - counters["types"])
         chk.cov["types"] = {"answerable": len(want), "answered": len(want & counters["types"]),
                             "not_answered": ["%s.%s" % m for m in missing]}
-        if missing:
+        if missing and not chk.violations:
+            # (with violations at hand the answers that never came are part of what went wrong, not a fault of the generator)
             raise common.InfraError("C10 generator: __type values never answered in this run: %s" % missing)
         chk.cov["rule"] = (
             "histories of 4..%d operations (the nine actions of the property, GetExecutionHistory with every kind of "
